@@ -1,6 +1,7 @@
 import QR.Proofs.Penalty
 import QR.Proofs.SourceTieC08
 import QR.Proofs.Pinned
+import QR.Proofs.SourceTieT3
 /-
 C08 - the penalty score the library uses to rank masks equals the ISO 18004 definition, for EVERY square matrix
 (any side n ≥ 1, not only QR sizes).  Model.lostPoint mirrors util.lost_point with its histogram, `next(iter)` skipping
@@ -47,6 +48,53 @@ theorem C08_source_rules :
     Gen.Code.l3_row_weight = 40 ∧ Gen.Code.l3_col_weight = 40 ∧ Gen.Code.l2_weight = 3 ∧ Gen.Code.l1_threshold = 5 ∧
     (∀ cnt len, Gen.Code.l1_term cnt len = cnt * (len - 2)) ∧ (∀ n, Gen.Code.l1_range n = (5, n + 1)) :=
   ⟨QR.SourceTie.rule3_eq, QR.SourceTie.rule_weights⟩
+
+
+/-! ### Source tie, part 2 (T2 plugins `tools/t2_fragments/`): (second plugin round, `frag_c.py`) the hand-written Model equals the definitions translated from
+    /repo's current Python AST (`QR.Gen.Code`, regenerated on every run). Restated verbatim from `QR/Proofs/SourceTie*.lean`. -/
+section SourceTieT2b
+open QR.Model QR.Gen QR.Gen.Code QR.SourceTieT
+
+/-- the four comparisons, the skip and the weight of the translated body, spelled out -/
+theorem C08_source_lp2_body_src (f g : Nat → Bool) (col lost : Nat) :
+    lp2_body f g col lost =
+      if f (col + 1) ≠ g (col + 1) then (true, lost)
+      else if f (col + 1) ≠ f col then (false, lost)
+      else if f (col + 1) ≠ g col then (false, lost)
+      else (false, lost + l2_weight) :=
+  QR.SourceTieT.lp2_body_src f g col lost
+
+/-- **`_lost_point_level2`**: on an `n × n` matrix the Model's list recursion equals the translated source (outer `for row in
+    range(n - 1)`, inner `for col in iter(range(n - 1))` with the translated body, `lost_point` threaded through) -/
+theorem C08_source_lostPointLevel2_src (M : BMat) (n : Nat) (hlen : M.length = n) (hrow : ∀ row ∈ M, row.length = n) :
+    level2 M = level2Src M n :=
+  QR.SourceTieT.lostPointLevel2_src M n hlen hrow
+
+/-- the translated step / flush of both scanners are the same function of the cell they read -/
+theorem C08_source_lp1_step_src (m : Nat → Nat → Bool) (o i : Nat) (p : Bool) (len : Nat) (c : List Nat) :
+    lp1_row_step m o i p len c = lp1_lineStep (m o i) (p, len, c) ∧ lp1_col_step m o i p len c = lp1_lineStep (m i o) (p, len, c) ∧
+    lp1_row_flush m o p len c = lp1_lineFlush (p, len, c) ∧ lp1_col_flush m o p len c = lp1_lineFlush (p, len, c) ∧
+    lp1_row_init m o = (m o 0, 0) ∧ lp1_col_init m o = (m 0 o, 0) :=
+  QR.SourceTieT.lp1_step_src m o i p len c
+
+/-- **`_lost_point_level1`**: on an `n × n` matrix the Model (`lineRuns` of all rows and columns, histogram by `count`,
+    weighted sum) equals the translated source (row scanners and column scanners updating `container`, final sum) -/
+theorem C08_source_lostPointLevel1_src (M : BMat) (n : Nat) (hlen : M.length = n) (hrow : ∀ row ∈ M, row.length = n) :
+    level1 M n = level1Src M n :=
+  QR.SourceTieT.lostPointLevel1_src M n hlen hrow
+
+/-- `sum(map(sum, modules))` is the Model's dark count -/
+theorem C08_source_lp4_dark_count_src (M : BMat) : lp4_dark_count M = darkCount M :=
+  QR.SourceTieT.lp4_dark_count_src M
+
+/-- **`_lost_point_level4`**: the Model's integer form equals the EXACT (rational-arithmetic) value of the translated Python
+    expression `int(abs(float(dark_count) / modules_count ** 2 * 100 - 50) / 5) * 10`, for every matrix and every `n`.
+    (Assumption outside Lean: the IEEE double evaluation yields the same integer as the exact evaluation.) -/
+theorem C08_source_lostPointLevel4_src (M : BMat) (n : Nat) :
+    (level4 M n : Int) = lp4_result (lp4_dark_count M) n :=
+  QR.SourceTieT.lostPointLevel4_src M n
+
+end SourceTieT2b
 
 /-- the Python functions this property's model mirrors have, in /repo's current working tree, exactly the normalised
     ASTs the model was written and validated against (fingerprints regenerated by T1 on every run) -/
